@@ -11,6 +11,11 @@ CLAUSE = ("in vbi_event_handler_register/_add every free() of a handler record i
           "vbi->event_mask is written only by vbi_event_enable, on every path through it, with the mask it was given; Teletext "
           "packet assembly is behind the `event_mask & VBI_EVENT_TTX_PAGE` test; event_mutex is released on every path that "
           "took it (trylock result correlated), allocation-failure exits excepted.")
+CLAUSE = CLAUSE + (" In vbi_event_handler_add (which removes *every* record of a handler function) the list walk continues "
+                   "after a record was freed - the code behind the loop is reachable from the free only through the loop head; "
+                   "every Teletext (re)activation in vbi_event_enable reaches vbi_teletext_desync (through "
+                   "vbi_teletext_channel_switched or directly), so no page in progress from before the handler was removed is "
+                   "completed with rows received after it was registered again.")
 NOT_DECIDED = "delivery order and exactly-once delivery as such, nested re-entrancy depth, user-pointer identity (values)."
 
 UNIT = "src/vbi.c"
@@ -109,6 +114,8 @@ def run(ctx, run):
     _event_mask(ctx, run)
     _ttx_gate(ctx, run, P.need("vbi_decode_teletext", "src/packet.c"))
     _mutex(ctx, run)
+    _walk_goes_on(ctx, run, P.need("vbi_event_handler_add", UNIT))
+    _activation_desyncs(ctx, run)
 
 
 def _unlinked_before(f, free_eid, eh):
@@ -390,3 +397,90 @@ def _null_alloc(f, a):
         if f.exprs[x]["k"] == "call" and f.exprs[x].get("callee") in ("calloc", "malloc"):
             return a.rel == "==" and a.R is not None and a.R.const == 0
     return False
+
+
+def _walk_goes_on(ctx, run, f):
+    from .. import loops
+    run.touch(f)
+    L = loops.natural_loops(f)
+    n = 0
+    for bid, i in flow.all_events(f):
+        e = f.exprs[i]
+        if not (e["k"] == "call" and e.get("callee") == "free"):
+            continue
+        # the loop this free() sits in syntactically: the innermost loop head that dominates it (a
+        # block that leaves the loop with `break` is not part of the natural loop body any more)
+        head = None
+        for h in L:
+            if flow.dominates(f, h, bid) and h != bid and (head is None or flow.dominates(f, head, h)):
+                head = h
+        if head is None:
+            continue
+        n += 1
+        body = L[head] | {bid}
+        # from the free: can we leave the loop without passing the loop head?
+        seen, stack, leaves = set(), [s for s, _ in f.edges(bid)], None
+        while stack:
+            b = stack.pop()
+            if b in seen or b == head:
+                continue
+            seen.add(b)
+            if b not in body:
+                leaves = b
+                break
+            stack.extend(s for s, _ in f.edges(b))
+        key = "RF-CORR:vbi_event_handler_add:walk-continues-after-removal"
+        if leaves is None:
+            run.holds("RF-CORR", key, "after `%s` the walk returns to the loop test: the remaining records are visited (further "
+                      "records of the same function are removed, all others contribute to the event mask)" % ex.pretty(f, i), ex.loc(f, i))
+        else:
+            run.violation("RF-CORR", key, "after `%s` control leaves the list walk: records behind the removed one are neither "
+                          "removed (same handler function, other user data) nor counted into the event mask - their service is "
+                          "switched off although they are still registered" % ex.pretty(f, i), ex.loc(f, i), witness={"function": f.name})
+    run.floor("record frees inside the removal walk of vbi_event_handler_add", n, 1)
+
+
+def _must_call(ctx, f, target, depth=0, memo=None):
+    """Every path through f calls `target` (directly or through a callee that must)."""
+    memo = {} if memo is None else memo
+    if f.key in memo:
+        return memo[f.key]
+    memo[f.key] = False
+    hit = set()
+    for bid, i in flow.all_events(f):
+        e = f.exprs[i]
+        if e["k"] == "call" and e.get("callee"):
+            if e["callee"] == target:
+                hit.add(bid)
+            elif depth < 3:
+                t = ctx.prog.func_for(f, e["callee"])
+                if t is not None and _must_call(ctx, t, target, depth + 1, memo):
+                    hit.add(bid)
+    reach = flow.reach_from(f, f.entry, avoid=hit)
+    memo[f.key] = f.exit not in reach
+    return memo[f.key]
+
+
+def _activation_desyncs(ctx, run):
+    P = ctx.prog
+    f = P.need("vbi_event_enable", UNIT)
+    run.touch(f)
+    n = 0
+    for bid, i in flow.all_events(f):
+        e = f.exprs[i]
+        if e["k"] == "call" and e.get("callee") == "vbi_teletext_channel_switched":
+            n += 1
+            t = P.func_for(f, e["callee"])
+            ok = t is not None and _must_call(ctx, t, "vbi_teletext_desync")
+            if not ok:
+                # or the caller itself does it on every path from here
+                ok, _ = atoms.must_pass(f, i, lambda ff, j: ff.exprs[j]["k"] == "call" and ff.exprs[j].get("callee") == "vbi_teletext_desync")
+            key = "RF-CORR:vbi_event_enable:ttx-activation-desyncs"
+            if ok:
+                run.holds("RF-CORR", key, "activating VBI_EVENT_TTX_PAGE reaches vbi_teletext_desync() on every path", ex.loc(f, i))
+            else:
+                run.violation("RF-CORR", key, "activating VBI_EVENT_TTX_PAGE does not reach vbi_teletext_desync(): the pages in progress "
+                              "when the last Teletext handler was removed are still open and are completed with rows received "
+                              "after a handler was registered again - a page that was never transmitted is stored and announced",
+                              ex.loc(f, i), witness={"function": f.name})
+    run.floor("Teletext activation sites in vbi_event_enable", n, 1)
